@@ -104,6 +104,43 @@ def make_engine(db_path, policies=None):
     return e
 
 
+class Runaway(BaseException):
+    """Raised into code that used up its CPU-time budget (BaseException: `except Exception` in the code under test does
+    not swallow it)."""
+
+
+class cpu_budget(object):
+    """Termination monitor in virtual time: the block may use `seconds` of this process's user-mode CPU time
+    (ITIMER_VIRTUAL - time spent waiting for a loaded machine does not count); beyond that Runaway is raised at the
+    next bytecode boundary of the main thread.  Budgets are two to three orders of magnitude above what the largest
+    valid input of the class needs."""
+
+    def __init__(self, seconds):
+        self.seconds = seconds
+        self.fired = False
+
+    def __enter__(self):
+        import signal
+        import threading
+        self.active = threading.current_thread() is threading.main_thread()
+        if not self.active:
+            return self
+
+        def on_timer(signum, frame):
+            self.fired = True
+            raise Runaway('more than %s s of CPU time' % self.seconds)
+        self.old = signal.signal(signal.SIGVTALRM, on_timer)
+        signal.setitimer(signal.ITIMER_VIRTUAL, self.seconds)
+        return self
+
+    def __exit__(self, *a):
+        if self.active:
+            import signal
+            signal.setitimer(signal.ITIMER_VIRTUAL, 0)
+            signal.signal(signal.SIGVTALRM, self.old)
+        return False
+
+
 class busy_reader(object):
     """Another connection in the middle of reading the database file: it holds SQLite's shared lock, so a writer can
     prepare its transaction but its COMMIT finds the database locked (after the busy time-out, which the harness sets
